@@ -46,10 +46,14 @@ pub struct FProg {
     /// ready when it reads the number of waking threads. A multi-valued location keeps intermediate values readable.
     #[serde(default)]
     pub counter: bool,
+    /// the first k polls do nothing but wake the task through the borrowed waker (`cx.waker().wake_by_ref()`) and return
+    /// Pending - the `yield_now().await` shape; the waker of `block_on` itself, not a clone
+    #[serde(default)]
+    pub self_wakes: u8,
 }
 impl FProg {
     pub fn s(&self) -> String {
-        format!("block_on(fut[{}{}{}{}])  ||  {}", if self.direct { "no registration" } else if self.use_aw { "AtomicWaker" } else { "waker slot in a Mutex" }, if self.recheck { ", re-check after register" } else { ", no re-check" }, if self.counter { ", one counter incremented by every waker" } else if self.flag_per_waker { ", one flag per waker" } else { "" }, if self.relaxed_flags { ", relaxed flags" } else { "" }.to_string() + if self.direct { ", wakers handed out at the first poll" } else { "" }, self.wakers.iter().map(|t| t.iter().map(|o| format!("{:?}", o)).collect::<Vec<_>>().join("; ")).collect::<Vec<_>>().join("  ||  "))
+        format!("block_on(fut[{}{}{}{}{}])  ||  {}", if self.self_wakes > 0 { format!("first {} polls wake themselves by ref and return Pending, then ", self.self_wakes) } else { String::new() }, if self.direct { "no registration" } else if self.use_aw { "AtomicWaker" } else { "waker slot in a Mutex" }, if self.recheck { ", re-check after register" } else { ", no re-check" }, if self.counter { ", one counter incremented by every waker" } else if self.flag_per_waker { ", one flag per waker" } else { "" }, if self.relaxed_flags { ", relaxed flags" } else { "" }.to_string() + if self.direct { ", wakers handed out at the first poll" } else { "" }, self.wakers.iter().map(|t| t.iter().map(|o| format!("{:?}", o)).collect::<Vec<_>>().join("; ")).collect::<Vec<_>>().join("  ||  "))
     }
 }
 
@@ -65,13 +69,15 @@ struct St {
     started: bool,
     /// direct protocol: which waking threads still hold their waker clone
     has_waker: u8,
+    /// polls that still wake themselves
+    selfw: u8,
 }
 
 /// returns (can_deadlock, can_complete)
 fn reference(p: &FProg, spurious: bool) -> (bool, bool) {
     let mut seen: HashSet<St> = HashSet::new();
     let need: u8 = if p.flag_per_waker { (1u8 << p.wakers.len()) - 1 } else { 1 };
-    let mut stack = vec![St { flag: 0, registered: false, notified: false, spur_used: false, fut: 0, pcs: vec![0; p.wakers.len()], started: !p.direct, has_waker: 0xff }];
+    let mut stack = vec![St { flag: 0, registered: false, notified: false, spur_used: false, fut: 0, pcs: vec![0; p.wakers.len()], started: !p.direct, has_waker: 0xff, selfw: p.self_wakes }];
     let (mut dl, mut done) = (false, false);
     while let Some(s) = stack.pop() {
         if !seen.insert(s.clone()) {
@@ -83,8 +89,15 @@ fn reference(p: &FProg, spurious: bool) -> (bool, bool) {
             0 => {
                 let mut n = s.clone();
                 n.started = true;
-                // the direct protocol has nothing to register: Pending right away
-                n.fut = if s.flag & need == need { 4 } else if p.direct { 3 } else { 1 };
+                if s.selfw > 0 {
+                    // wake_by_ref on the task's own waker during the poll, then Pending
+                    n.selfw -= 1;
+                    n.notified = true;
+                    n.fut = 3;
+                } else {
+                    // the direct protocol has nothing to register: Pending right away
+                    n.fut = if s.flag & need == need { 4 } else if p.direct { 3 } else { 1 };
+                }
                 succ.push(n);
             }
             1 => {
@@ -196,7 +209,19 @@ struct Fut {
     /// direct protocol: spawns the waking threads at the first poll
     direct: Option<(Arc<FProg>, Arc<std::sync::atomic::AtomicUsize>)>,
     started: bool,
+    selfw: u8,
     handles: Arc<Mutex<Vec<loom::thread::JoinHandle<()>>>>,
+}
+impl Fut {
+    fn self_wake(&mut self, cx: &mut Context<'_>) -> bool {
+        if self.selfw == 0 {
+            return false;
+        }
+        self.selfw -= 1;
+        self.s.wakes.fetch_add(1, SeqCst);
+        cx.waker().wake_by_ref();
+        true
+    }
 }
 impl Future for Fut {
     type Output = usize;
@@ -232,7 +257,13 @@ impl Future for Fut {
                     self.handles.lock().unwrap().push(h);
                 }
             }
+            if self.self_wake(cx) {
+                return Poll::Pending;
+            }
             return if self.s.ready() { Poll::Ready(1) } else { Poll::Pending };
+        }
+        if self.self_wake(cx) {
+            return Poll::Pending;
         }
         if self.s.ready() {
             return Poll::Ready(1);
@@ -327,7 +358,7 @@ pub fn run_loom_bounded(p: &FProg, iter_cap: usize, bound: Option<usize>) -> FRu
                     }
                 }));
             }
-            let out = block_on(Fut { s: s.clone(), use_aw, recheck: p2.recheck, direct: if p2.direct { Some((p2.clone(), e2.clone())) } else { None }, started: false, handles: handles.clone() });
+            let out = block_on(Fut { s: s.clone(), use_aw, recheck: p2.recheck, direct: if p2.direct { Some((p2.clone(), e2.clone())) } else { None }, started: false, selfw: p2.self_wakes, handles: handles.clone() });
             assert_eq!(out, 1, "block_on returned something else than the future's output");
             r2.fetch_add(1, SeqCst);
             // every poll after the first is preceded by a wake or by the single modelled spurious return
@@ -432,38 +463,51 @@ fn core() -> &'static Vec<FProg> {
             }
             for l in &lists {
                 for recheck in [true, false] {
-                    v.push(FProg { use_aw, recheck, wakers: vec![l.clone()], flag_per_waker: false, relaxed_flags: false, direct: false, counter: false });
+                    v.push(FProg { use_aw, recheck, wakers: vec![l.clone()], flag_per_waker: false, relaxed_flags: false, direct: false, counter: false, self_wakes: 0 });
                 }
             }
             // two waker threads
             // (two wakers cost >= 100 000 iterations each: a handful here, more in the random part of the thorough tier)
             for (a, b) in [(vec![SetFlag, Wake], vec![Wake]), (vec![SetFlag], vec![SetFlag, Wake])] {
-                v.push(FProg { use_aw, recheck: true, wakers: vec![a.clone(), b.clone()], flag_per_waker: false, relaxed_flags: false, direct: false, counter: false });
+                v.push(FProg { use_aw, recheck: true, wakers: vec![a.clone(), b.clone()], flag_per_waker: false, relaxed_flags: false, direct: false, counter: false, self_wakes: 0 });
             }
             // two wakers, each with its own relaxed flag: the flags are only visible through the wakes; when the two
             // wakes coalesce into one notification the re-poll must still see both
-            v.push(FProg { use_aw, recheck: true, wakers: vec![vec![SetFlag, Wake], vec![SetFlag, Wake]], flag_per_waker: true, relaxed_flags: true, direct: false, counter: false });
-            v.push(FProg { use_aw, recheck: true, wakers: vec![vec![SetFlag, Wake], vec![SetFlag, Wake]], flag_per_waker: true, relaxed_flags: false, direct: false, counter: false });
-            v.push(FProg { use_aw, recheck: true, wakers: vec![vec![SetFlag, Wake]], flag_per_waker: false, relaxed_flags: true, direct: false, counter: false });
+            v.push(FProg { use_aw, recheck: true, wakers: vec![vec![SetFlag, Wake], vec![SetFlag, Wake]], flag_per_waker: true, relaxed_flags: true, direct: false, counter: false, self_wakes: 0 });
+            v.push(FProg { use_aw, recheck: true, wakers: vec![vec![SetFlag, Wake], vec![SetFlag, Wake]], flag_per_waker: true, relaxed_flags: false, direct: false, counter: false, self_wakes: 0 });
+            v.push(FProg { use_aw, recheck: true, wakers: vec![vec![SetFlag, Wake]], flag_per_waker: false, relaxed_flags: true, direct: false, counter: false, self_wakes: 0 });
             if !use_aw {
                 // wakers handed out at the first poll (no registration): one and two waking threads, every flag ordering
                 for relaxed_flags in [false, true] {
-                    v.push(FProg { use_aw, recheck: true, wakers: vec![vec![SetFlag, Wake]], flag_per_waker: false, relaxed_flags, direct: true, counter: false });
-                    v.push(FProg { use_aw, recheck: true, wakers: vec![vec![SetFlag, Wake], vec![SetFlag, Wake]], flag_per_waker: true, relaxed_flags, direct: true, counter: false });
-                    v.push(FProg { use_aw, recheck: true, wakers: vec![vec![SetFlag, Wake], vec![SetFlag, Wake]], flag_per_waker: false, relaxed_flags, direct: true, counter: false });
-                    v.push(FProg { use_aw, recheck: true, wakers: vec![vec![Wake, SetFlag, Wake], vec![SetFlag]], flag_per_waker: true, relaxed_flags, direct: true, counter: false });
-                    v.push(FProg { use_aw, recheck: true, wakers: vec![vec![SetFlag], vec![SetFlag, Wake]], flag_per_waker: true, relaxed_flags, direct: true, counter: false });
+                    v.push(FProg { use_aw, recheck: true, wakers: vec![vec![SetFlag, Wake]], flag_per_waker: false, relaxed_flags, direct: true, counter: false, self_wakes: 0 });
+                    v.push(FProg { use_aw, recheck: true, wakers: vec![vec![SetFlag, Wake], vec![SetFlag, Wake]], flag_per_waker: true, relaxed_flags, direct: true, counter: false, self_wakes: 0 });
+                    v.push(FProg { use_aw, recheck: true, wakers: vec![vec![SetFlag, Wake], vec![SetFlag, Wake]], flag_per_waker: false, relaxed_flags, direct: true, counter: false, self_wakes: 0 });
+                    v.push(FProg { use_aw, recheck: true, wakers: vec![vec![Wake, SetFlag, Wake], vec![SetFlag]], flag_per_waker: true, relaxed_flags, direct: true, counter: false, self_wakes: 0 });
+                    v.push(FProg { use_aw, recheck: true, wakers: vec![vec![SetFlag], vec![SetFlag, Wake]], flag_per_waker: true, relaxed_flags, direct: true, counter: false, self_wakes: 0 });
                 }
-                v.push(FProg { use_aw, recheck: true, wakers: vec![vec![SetFlag, WakeByRef], vec![SetFlag, WakeByRef]], flag_per_waker: true, relaxed_flags: true, direct: false, counter: false });
+                v.push(FProg { use_aw, recheck: true, wakers: vec![vec![SetFlag, WakeByRef], vec![SetFlag, WakeByRef]], flag_per_waker: true, relaxed_flags: true, direct: false, counter: false, self_wakes: 0 });
                 // one counter, two wakers, both wakes may arrive during the first poll: the poll caused by the (coalesced)
                 // wake must see both increments; a stale intermediate value stays readable after the spurious re-poll
                 for relaxed_flags in [true, false] {
                     for direct in [true, false] {
-                        v.push(FProg { use_aw, recheck: true, wakers: vec![vec![SetFlag, Wake], vec![SetFlag, Wake]], flag_per_waker: true, relaxed_flags, direct, counter: true });
-                        v.push(FProg { use_aw, recheck: true, wakers: vec![vec![SetFlag, WakeByRef], vec![SetFlag, WakeByRef]], flag_per_waker: true, relaxed_flags, direct, counter: true });
+                        v.push(FProg { use_aw, recheck: true, wakers: vec![vec![SetFlag, Wake], vec![SetFlag, Wake]], flag_per_waker: true, relaxed_flags, direct, counter: true, self_wakes: 0 });
+                        v.push(FProg { use_aw, recheck: true, wakers: vec![vec![SetFlag, WakeByRef], vec![SetFlag, WakeByRef]], flag_per_waker: true, relaxed_flags, direct, counter: true, self_wakes: 0 });
                     }
                 }
             }
+        }
+        // a task that wakes itself through the borrowed waker of block_on and returns Pending (`yield_now().await`): the
+        // wake is not lost whether or not a clone of the waker exists at that moment
+        for self_wakes in [1u8, 2] {
+            for use_aw in [true, false] {
+                v.push(FProg { use_aw, recheck: true, wakers: vec![vec![SetFlag, Wake]], flag_per_waker: false, relaxed_flags: false, direct: false, counter: false, self_wakes });
+                v.push(FProg { use_aw, recheck: true, wakers: vec![vec![SetFlag]], flag_per_waker: false, relaxed_flags: false, direct: false, counter: false, self_wakes });
+                v.push(FProg { use_aw, recheck: false, wakers: vec![vec![Wake, SetFlag]], flag_per_waker: false, relaxed_flags: false, direct: false, counter: false, self_wakes });
+            }
+            v.push(FProg { use_aw: false, recheck: true, wakers: vec![vec![SetFlag, Wake]], flag_per_waker: false, relaxed_flags: true, direct: true, counter: false, self_wakes });
+            v.push(FProg { use_aw: false, recheck: true, wakers: vec![vec![SetFlag, Wake, DropWaker]], flag_per_waker: false, relaxed_flags: false, direct: true, counter: false, self_wakes });
+            v.push(FProg { use_aw: false, recheck: true, wakers: vec![vec![SetFlag, DropWaker]], flag_per_waker: false, relaxed_flags: false, direct: true, counter: false, self_wakes });
+            v.push(FProg { use_aw: false, recheck: true, wakers: vec![vec![DropWaker, SetFlag]], flag_per_waker: false, relaxed_flags: false, direct: true, counter: false, self_wakes });
         }
         v
     })
@@ -486,7 +530,7 @@ pub fn prog_at(seed: u64, idx: usize) -> FProg {
     let n = if rng.chance(1, 8) { 2 } else { 1 };
     let wakers: Vec<Vec<WOp>> = (0..n).map(|_| (0..1 + rng.below(if n == 1 { 4 } else { 2 })).map(|_| *rng.pick(&al)).collect()).collect();
     let two = wakers.len() == 2;
-    FProg { use_aw, recheck: rng.chance(3, 4), wakers, flag_per_waker: two && rng.chance(1, 2), relaxed_flags: rng.chance(1, 3), direct: rng.chance(1, 4), counter: false }
+    FProg { use_aw, recheck: rng.chance(3, 4), wakers, flag_per_waker: two && rng.chance(1, 2), relaxed_flags: rng.chance(1, 3), direct: rng.chance(1, 4), counter: false, self_wakes: if rng.chance(1, 5) { 1 + rng.below(2) as u8 } else { 0 } }
 }
 
 pub fn judge(p: &FProg, rec: &mut Rec, tier: u8) {
